@@ -10,6 +10,9 @@ modes:
   kw-format    `'..{}..'.format(a)`                      -> f-string   (simple positional cases)
   extract-var  `x = f(g(a), b)` (first argument a call)  -> `tmp = g(a); x = f(tmp, b)`
   inline-var   `v = e` directly followed by the only use of v -> e substituted
+  expand-aug   `x op= e` -> `x = x op e`  (every augmented assignment of this package is on Python numbers)
+  to-keyword   positional arguments of calls to package functions with a unique name -> keyword arguments
+  to-positional  keyword arguments (leading positional-or-keyword parameters, in order) -> positional
 The output is produced with ast.unparse (comments are lost, which no check reads).
 """
 from __future__ import annotations
@@ -18,6 +21,9 @@ import ast
 import os
 import shutil
 import sys
+
+
+SIGS: dict[str, list[str]] = {}
 
 
 def _callfree(e: ast.AST) -> bool:
@@ -49,6 +55,18 @@ class T(ast.NodeTransformer):
         if 'invert-if' in self.modes and n.orelse and not (len(n.orelse) == 1 and isinstance(n.orelse[0], ast.If)):
             self.count += 1
             return ast.copy_location(ast.If(test=_neg(n.test), body=n.orelse, orelse=n.body), n)
+        return n
+
+    def visit_AugAssign(self, n: ast.AugAssign) -> ast.AST:  # noqa: N802
+        self.generic_visit(n)
+        if 'expand-aug' in self.modes and _callfree(n.target):
+            import copy
+            left = copy.deepcopy(n.target)
+            for x in ast.walk(left):
+                if hasattr(x, 'ctx'):
+                    x.ctx = ast.Load()
+            self.count += 1
+            return ast.copy_location(ast.Assign(targets=[n.target], value=ast.BinOp(left=left, op=n.op, right=n.value), lineno=n.lineno), n)
         return n
 
     def visit_Compare(self, n: ast.Compare) -> ast.AST:  # noqa: N802
@@ -170,11 +188,58 @@ def block_rewrites(fn: ast.AST, modes: set[str]) -> int:
     return count
 
 
+def signatures(root: str) -> dict[str, list[str]]:
+    """name -> positional-or-keyword parameter names (without self/cls) for package functions whose name is unique."""
+    seen: dict[str, list[list[str]]] = {}
+    for dirpath, _d, files in os.walk(root):
+        for fn in files:
+            if fn.endswith('.py'):
+                tree = ast.parse(open(os.path.join(dirpath, fn)).read())
+                for n in ast.walk(tree):
+                    if isinstance(n, (ast.FunctionDef, ast.AsyncFunctionDef)):
+                        if n.args.vararg or n.args.posonlyargs:
+                            seen.setdefault(n.name, []).append(['*'])
+                            continue
+                        ps = [a.arg for a in n.args.args]
+                        if ps[:1] in (['self'], ['cls']):
+                            ps = ps[1:]
+                        seen.setdefault(n.name, []).append(ps)
+    return {k: v[0] for k, v in seen.items() if len(v) == 1 and v[0] != ['*'] and not k.startswith('__')}
+
+
+class ArgStyle(ast.NodeTransformer):
+    def __init__(self, sigs: dict[str, list[str]], mode: str) -> None:
+        self.sigs, self.mode, self.count = sigs, mode, 0
+
+    def visit_Call(self, n: ast.Call) -> ast.AST:  # noqa: N802
+        self.generic_visit(n)
+        name = n.func.attr if isinstance(n.func, ast.Attribute) else (n.func.id if isinstance(n.func, ast.Name) else None)
+        if name not in self.sigs or any(isinstance(a, ast.Starred) for a in n.args) or any(k.arg is None for k in n.keywords):
+            return n
+        if isinstance(n.func, ast.Attribute) and isinstance(n.func.value, ast.Call) and ast.unparse(n.func.value.func) == 'super':
+            return n
+        ps = self.sigs[name]
+        if self.mode == 'to-keyword' and n.args and len(n.args) <= len(ps) and not ({k.arg for k in n.keywords} & set(ps[:len(n.args)])):
+            n.keywords = [ast.keyword(arg=ps[i], value=a) for i, a in enumerate(n.args)] + n.keywords
+            n.args = []
+            self.count += 1
+        elif self.mode == 'to-positional' and n.keywords:
+            k0 = len(n.args)
+            moved = 0
+            while n.keywords and k0 + moved < len(ps) and n.keywords[0].arg == ps[k0 + moved]:
+                n.args.append(n.keywords.pop(0).value)
+                moved += 1
+            self.count += bool(moved)
+        return n
+
+
 def main() -> None:
     src, dst, modes = sys.argv[1], sys.argv[2], set(sys.argv[3].split(','))
     if os.path.exists(dst):
         shutil.rmtree(dst)
     shutil.copytree(src, dst)
+    global SIGS
+    SIGS = signatures(src) if modes & {'to-keyword', 'to-positional'} else {}
     total = 0
     for dirpath, _d, files in os.walk(dst):
         for fn in files:
@@ -183,6 +248,10 @@ def main() -> None:
                 tree = ast.parse(open(p).read())
                 t = T(modes)
                 tree = t.visit(tree)
+                for am in modes & {'to-keyword', 'to-positional'}:
+                    at = ArgStyle(SIGS, am)
+                    tree = at.visit(tree)
+                    t.count += at.count
                 if modes & {'extract-var', 'inline-var'}:
                     for fn_ in [n for n in ast.walk(tree) if isinstance(n, (ast.FunctionDef, ast.AsyncFunctionDef))]:
                         t.count += block_rewrites(fn_, modes)
